@@ -75,6 +75,11 @@ pub struct RunCtx {
     pub emit_logs: bool,
     /// tracing runs: the subscriber filters at WARN instead of INFO.
     pub warn_filter: bool,
+    /// tracing runs: span of a callback that is awaiting right now and index of its log entry - a
+    /// "helper task" (the event stream's consumer, running outside every scenario span) may log on
+    /// its behalf, through a span whose parent is given explicitly.
+    #[cfg(feature = "tracing")]
+    pub behalf: RefCell<Option<(tracing::Span, usize)>>,
 }
 
 thread_local! {
@@ -98,6 +103,8 @@ pub fn install_run(core: &Rc<SimCore>, plan: &Rc<Plan>, emit_logs: bool) -> Rc<R
         max_in_callbacks: Cell::new(0),
         emit_logs,
         warn_filter: emit_logs && warn_filter_of(plan),
+        #[cfg(feature = "tracing")]
+        behalf: RefCell::new(None),
     });
     RUN.with(|r| *r.borrow_mut() = Some(Rc::clone(&ctx)));
     ctx
@@ -156,8 +163,16 @@ fn emit_log(tok: &str) {
         return;
     }
     // message shapes: plain, multi-line, and containing the collector's `__` separator
-    match tok.bytes().map(u32::from).sum::<u32>() % 6 {
+    match tok.bytes().map(u32::from).sum::<u32>() % 7 {
         0 => tracing::info!("{tok}"),
+        // from a span whose parent is given explicitly (the step / hook span), created while another,
+        // detached span is the current one - what a helper task logging on behalf of the step does
+        6 => {
+            let here = tracing::Span::current();
+            tracing::info_span!(parent: None, "detached_helper").in_scope(|| {
+                tracing::info_span!(parent: &here, "on_behalf").in_scope(|| tracing::info!("explicit parent {tok}"));
+            });
+        }
         // from inside a span of the user's own, nested in the step / hook span
         4 => tracing::info_span!("user_inner", depth = 1).in_scope(|| tracing::warn!("inner span {tok}")),
         // structured fields instead of a plain message
@@ -208,6 +223,24 @@ fn eager_fault(kind: CbKind, site: &str, world: Option<&mut SimWorld>, scenario:
     }
     ctx.max_in_callbacks.set(ctx.max_in_callbacks.get().max(ctx.in_callbacks.get() + 1));
     fire(beh.outcome, &token);
+}
+
+/// Called by the event stream's consumer (outside every scenario span): if some callback is awaiting
+/// and offered its span, log once on its behalf through a child span with that explicit parent.
+#[cfg(feature = "tracing")]
+pub fn emit_on_behalf() {
+    let Some(ctx) = RUN.with(|r| r.borrow().clone()) else { return };
+    let Some((span, idx)) = ctx.behalf.borrow_mut().take() else { return };
+    if ctx.cb_log.borrow()[idx].exit.is_some() {
+        return;
+    }
+    let t = format!("log{}", ctx.new_token());
+    ctx.cb_log.borrow_mut()[idx].log_tokens.push(t.clone());
+    if ctx.warn_filter {
+        tracing::warn_span!(parent: &span, "on_behalf").in_scope(|| tracing::warn!("helper task {t}"));
+    } else {
+        tracing::info_span!(parent: &span, "on_behalf").in_scope(|| tracing::info!("helper task {t}"));
+    }
 }
 
 struct InCb(Rc<RunCtx>);
@@ -267,11 +300,22 @@ async fn callback(
         }
     };
     log_n(beh.logs.0);
+    #[cfg(feature = "tracing")]
+    if ctx.emit_logs && !beh.awaits.is_empty() && idx % 3 == 0 {
+        *ctx.behalf.borrow_mut() = Some((tracing::Span::current(), idx));
+    }
     for d in &beh.awaits {
         if *d == 0 {
             ctx.core.yield_now().await;
         } else {
             ctx.core.sleep(*d, LABEL_USER).await;
+        }
+    }
+    #[cfg(feature = "tracing")]
+    {
+        let mut b = ctx.behalf.borrow_mut();
+        if b.as_ref().is_some_and(|(_, i)| *i == idx) {
+            *b = None;
         }
     }
     log_n(beh.logs.1);
